@@ -1,15 +1,20 @@
 # Registry of checks: property id -> jobs (harness entry points), bounds, assumptions.
 CHECKS = {}
 
+_c20_bases_q = [0, 1700000000000000000, 1700000000999500000, 2085978494900000000]
+_c20_bases_t = _c20_bases_q + [1000000000, 946684800000000000, 1767225600000000000, 1999999999999400000, 1234567890123456789, 4294967296000000000 // 4, 1500000000500000000, 2000000000000000000]
 CHECKS["C20"] = dict(
     jobs=[
         dict(pkg="internal/sequencenumber", entry="HC20UnwrapStep"),
         dict(pkg="internal/sequencenumber", entry="HC20UnwrapFirst"),
-    ],
-    bounds=dict(quick="unwrapper: one Unwrap step, all lastUnwrapped in [0,2^62) x all 2^16 inputs (loop-free, complete for the step)",
-                thorough="same"),
-    outside=["lastUnwrapped >= 2^62"],
-    assumptions=["go/ssa translation of the package", "z3 bit-vector decision procedure"],
+    ] + [dict(pkg="internal/ntp", entry="HC20NTP", params=dict(base=b, bits=18), thorough=dict(params=dict(bits=20), flags=["-qtimeout", "600000"])) for b in _c20_bases_q]
+      + [dict(pkg="internal/ntp", entry="HC20NTP32", params=dict(base=b, bits=18), thorough=dict(params=dict(bits=20), flags=["-qtimeout", "600000"])) for b in _c20_bases_q[:3]]
+      + [dict(pkg="internal/ntp", entry="HC20NTP", params=dict(base=b, bits=20), flags=["-qtimeout", "600000"], tiers=["thorough"]) for b in _c20_bases_t[4:]]
+      + [dict(pkg="internal/ntp", entry="HC20NTP32", params=dict(base=b, bits=20), tiers=["thorough"]) for b in _c20_bases_t[4:]],
+    bounds=dict(quick="unwrapper: one Unwrap step, all lastUnwrapped in [0,2^62) x all 2^16 inputs (loop-free, complete for the step) + first call. NTP: for 4 window bases (1970, 2023, a second boundary, just before the 2036 NTP era end) ALL pairs of instants within 2^18 ns (thorough 2^20): monotonicity, ToTime(ToNTP) within 1 us; ToNTP32/ToTime32 round trip with any reference in the same window",
+                thorough="12 window bases"),
+    outside=["lastUnwrapped >= 2^62", "instants outside the listed 2^20-ns windows (exhaustive per window, sampled across windows)", "dates after 2036"],
+    assumptions=["go/ssa translation", "z3 bit-vectors; cvc5/z3 floating point", "float64->uint32 as go1.24/amd64"],
 )
 
 NOT_APPLICABLE = {}
